@@ -226,7 +226,18 @@ Proof.
     - apply add_padding_full. rewrite app_length, map_length, repeat_length. exact K2.
     - rewrite app_nil_r, add_padding_bare, map_length. reflexivity. }
   rewrite P. destruct custom as [c|].
-  - cbn [eff] in *. rewrite (translate_syms c rfc_alphabet ds _ E1 E2 rfc_len E3 Hds). cbn [bind Ok].
+  - cbn [eff] in *.
+    assert (Chk : existsb (fun ch => negb (memb ch c) && negb (list_eqb [ch] [rfc_pad]))
+                    (map (sym32 c) ds ++ repeat rfc_pad (padcount (length ds))) = false).
+    { apply not_true_is_false. intro X. apply existsb_exists in X. destruct X as (ch & I & X).
+      apply andb_true_iff in X. destruct X as [X1 X2]. apply negb_true_iff in X1, X2.
+      apply in_app_or in I. destruct I as [I|I].
+      - apply in_map_iff in I. destruct I as (d & <- & Hd).
+        unfold digits_ok in Hds. rewrite Forall_forall in Hds.
+        assert (In (sym32 c d) c) by (apply sym32_in; auto).
+        apply memb_In in H. congruence.
+      - apply repeat_spec in I. subst ch. rewrite list_eqb_refl in X2. discriminate. }
+    rewrite Chk. rewrite (translate_syms c rfc_alphabet ds _ E1 E2 rfc_len E3 Hds). cbn [bind Ok].
     apply b32decode_encoded; assumption.
   - cbn [bind Ok eff]. apply b32decode_encoded; assumption.
 Qed.
@@ -271,4 +282,19 @@ Proof.
   intros (H1 & p1 & P1 & L1 & V1) (H2 & p2 & P2 & L2 & V2).
   assert (p1 = p2 /\ length ds1 = length ds2) by lia. destruct H as [-> L].
   apply (from_be_inj_len 32 r32); auto. congruence.
+Qed.
+
+(* with a custom alphabet, any character that is neither in that alphabet nor '=' is a ValueError
+   (before the repair in /repo such a character of the standard alphabet was decoded as an alias) *)
+Theorem decode_custom_foreign s c ch : In ch s -> ~ In ch c -> ch <> rfc_pad ->
+  decode s (Some c) = Err ValueError.
+Proof.
+  intros I Hc Hp. unfold Base32.decode.
+  assert (I2 : In ch (add_padding [rfc_pad] s)).
+  { unfold add_padding. destruct (_ =? 0)%nat; [exact I|apply in_or_app; left; exact I]. }
+  assert (X : existsb (fun ch => negb (memb ch c) && negb (list_eqb [ch] [rfc_pad])) (add_padding [rfc_pad] s) = true).
+  { apply existsb_exists. exists ch. split; [exact I2|]. apply andb_true_iff. split; apply negb_true_iff.
+    - destruct (memb ch c) eqn:M; [apply memb_In in M; contradiction|reflexivity].
+    - destruct (list_eqb [ch] [rfc_pad]) eqn:L; [|reflexivity]. apply list_eqb_spec in L. congruence. }
+  rewrite X. reflexivity.
 Qed.
